@@ -29,6 +29,8 @@ BOUNDS = {
 }
 OUTSIDE = "what real scipy does with the bounds (its contract, assumed); floating-point rounding of exp(log(x))"
 
+FLOAT_SELFCHECK = True
+
 
 def preload():
     c02.preload()
